@@ -67,6 +67,7 @@ theorem shutdown_order_whole_run (cfg : Cfg) (fuel : Nat) (sched : List Act) (pi
   obtain ⟨rank, hr, hb⟩ := hacyc
   exact shutdownOrder_prefix _ _ _ _ (before_shutdown_plain cfg fuel sched)
     (shutdownLog_order _ _ _ pick rank (startup_modsNd cfg fuel) hclosed hr hb)
+    (shutdownLog_stop_all _ _ _ pick (startup_modsNd cfg fuel))
 
 /-- proved part: the shutdown phase (`shutdown_modules`) of the model stops every poll thread first, shuts every
 module down exactly once and users before the modules attached to them, whenever the resolved attachments of the
